@@ -9,7 +9,8 @@ from vf.core import sig_of  # noqa: E402
 
 ID = "C18"
 LEVEL = "exploration"
-RULE = ("grids with 0-2 leading blank rows, optional blank first column, known columns in random order (titles sometimes padded with blanks, ranged titles sometimes numbers), a contiguous "
+RULE = ('[later additions: a title repeated inside the column group; two attributes read from one column; a family of all-text tables (glossaries) whose rows may read like the title row, with a marker object and a callable as defaults of missing optional columns] '
+        "grids with 0-2 leading blank rows, optional blank first column, known columns in random order (titles sometimes padded with blanks, ranged titles sometimes numbers), a contiguous "
         "group of 1-3 ranged columns, unknown extra columns behind a known one, blank cells anywhere, 0-8 data rows, "
         "rows with blank key, trailing content after a blank row / a row with blank first cell; rule sets: logical id of 0, 1 or 2 attributes, str / int / "
         "bool / list / set readers, ranged set or ranged dict or no ranged attribute, optional column present or "
